@@ -222,6 +222,21 @@ theorem convert_carries_cutoff (nvars : Nat) (s : CSampler) :
   obtain ⟨h1, h2, h3, h4⟩ := convertSampler_spec nvars s
   exact ⟨h1, h2, by rw [h3]; exact growLen_ge_left _ _, h4⟩
 
+/-- `increase_cutoff_to(c)` never lowers the reported cutoff, whatever `c` is (below, equal, above):
+the result is `max(cutoff, c)`; operators untouched, container padded to it, `Inv` (hence
+`n ≤ cutoff`) kept; for `c ≤ cutoff` the sampler field does not move at all. -/
+theorem increaseCutoffTo_monotone (c : Nat) (s : CSampler) :
+    s.cutoff ≤ (increaseCutoffTo c s).cutoff ∧ c ≤ (increaseCutoffTo c s).cutoff ∧
+    (increaseCutoffTo c s).cutoff = max s.cutoff c ∧
+    (c ≤ s.cutoff → (increaseCutoffTo c s).cutoff = s.cutoff) ∧
+    (increaseCutoffTo c s).n = s.n ∧ s.len ≤ (increaseCutoffTo c s).len ∧
+    (s.Inv → (increaseCutoffTo c s).Inv ∧ (increaseCutoffTo c s).n ≤ (increaseCutoffTo c s).cutoff ∧
+      (increaseCutoffTo c s).len = max s.cutoff c) := by
+  obtain ⟨h1, h2, h3, h4⟩ := increaseCutoffTo_spec c s
+  refine ⟨by rw [h1]; omega, by rw [h1]; omega, h1, fun h => by rw [h1]; omega, h2,
+    by rw [h3]; exact growLen_ge_left _ _, fun hi => ⟨h4 hi, inv_n_le _ (h4 hi), ?_⟩⟩
+  rw [h3, growLen_eq_max]; unfold CSampler.Inv at hi; omega
+
 /-- one public call on a pair of samplers: `Inv` on both sides again, object A's cutoff does not
 decrease, object B's does not decrease unless B was replaced by a freshly built sampler. -/
 theorem pair_action_invariant (p : CSampler × CSampler) (act : PairAction)
@@ -239,11 +254,8 @@ theorem pair_action_invariant (p : CSampler × CSampler) (act : PairAction)
     have h := swap_spec p.1 p.2 ha hb
     exact ⟨h.2.2.2.2.2.2.1, h.2.2.2.2.2.2.2.1, h.1, fun _ => h.2.1⟩
   | raiseA c =>
-    refine ⟨?_, hb, ?_, fun _ => Nat.le_refl _⟩
-    · apply setCutoff_inv
-      unfold CSampler.Inv at ha; omega
-    · show p.1.cutoff ≤ max p.1.cutoff c
-      omega
+    have h := increaseCutoffTo_monotone c p.1
+    exact ⟨(h.2.2.2.2.2.2 ha).1, hb, h.1, fun _ => Nat.le_refl _⟩
   | convertA nv =>
     have h := convertSampler_spec nv p.1
     exact ⟨h.2.2.2 ha, hb, by rw [show (applyPair p (.convertA nv)).1.cutoff = p.1.cutoff from h.1]; exact Nat.le_refl _,
@@ -275,6 +287,11 @@ example :
     let b := newIsing 1
     ((swapSamplers b a).1.cutoff, (swapSamplers b a).1.n, (swapSamplers b a).1.len) = (7, 4, 7) := by
   decide
+
+/-- `increase_cutoff_to` below / at / above a cutoff of 4 with two operators -/
+example : ([2, 4, 9].map fun c =>
+    let s := increaseCutoffTo c { cutoff := 4, occ := [true, false, true, false] }
+    (s.cutoff, s.len, s.n)) = [(4, 4, 2), (4, 4, 2), (9, 9, 2)] := by decide
 
 /-! ### non-vacuity: concrete runs -/
 
